@@ -53,7 +53,8 @@ def one_case(rng):
             r.orders[k] = (np.array([[float(rng.randint(-9, 9)) for _ in range(2)] for _ in range(2)]),
                            np.array([[float(rng.randint(0, 3)) for _ in range(2)] for _ in range(2)]))
         rs.append(r)
-    name = "XSHERANC_total" if is_xs else "F2_total"
+    # cross sections are recognised by their kinematics (y), not by their name: F1, FW and g5 are cross sections too
+    name = rng.choice(["XSHERANC_total", "F1_total", "FW_light", "g5_total", "XSCHORUSCC_charm"]) if is_xs else rng.choice(["F2_total", "FL_light", "F3_charm", "g1_total"])
     out = Output()
     out["xgrid"] = dict(grid=[0.5, 1.0], log=True); out["pids"] = [21, 1]; out["projectilePID"] = 11
     out[name] = rs
